@@ -502,6 +502,21 @@ impl<const N: usize> ZEx<N> {
                 Op::DropHand => {
                     self.hand.pop();
                 }
+                Op::Fill => {
+                    // a completely full buffer of capacity N can only be built from an array of
+                    // N unit values; the single-element insertions must behave as on any full buffer
+                    let r = self.call(false, || {
+                        let mut u: CircularBuffer<N, ()> = CircularBuffer::from([(); N]);
+                        let a = (u.len() == N, u.is_full(), u.push_back(()).is_some(), u.len() == N, u.push_front(()).is_some(), u.len() == N);
+                        let t = (u.try_push_back(()).is_err(), u.try_push_front(()).is_err(), u.len() == N, u.pop_back().is_some(), u.len() == N - 1, u.try_push_front(()).is_ok(), u.is_full());
+                        (a, t)
+                    });
+                    if let Some((a, t)) = r {
+                        if a != (true, true, true, true, true, true) || t != (true, true, true, true, true, true, true) {
+                            self.fail(cls::ZST | cls::RET | cls::IDENT, format!("full buffer of {N} unit elements: push/try_push/pop gave {a:?} {t:?}"));
+                        }
+                    }
+                }
                 _ => self.fail(cls::HARNESS, format!("op {} is not part of the zst scenario", st.op.name())),
             }
         }
@@ -556,7 +571,8 @@ impl<const N: usize> ZEx<N> {
                     self.fail(cls::ZST | cls::CONTENTS, format!("buffer {bi}: len() {bl}, iter().len() {il}, slices {}+{}; count model says {l} (N = {N})", s0.len(), s1.len()));
                     break;
                 }
-                if b.front().is_some() != (l > 0) || b.back().is_some() != (l > 0) || b.get(l).is_some() || (l > 0 && b.get(l - 1).is_none()) || b.nth_back(l).is_some() {
+                let inner_ok = (0..l.min(4)).all(|k| b.get(k).is_some() && b.nth_front(k).is_some() && b.nth_back(k).is_some() && b.range(k..l).len() == l - k);
+                if !inner_ok || b.front().is_some() != (l > 0) || b.back().is_some() != (l > 0) || b.get(l).is_some() || (l > 0 && b.get(l - 1).is_none()) || b.nth_back(l).is_some() {
                     self.fail(cls::ZST, format!("buffer {bi}: accessors disagree with count {l} (N = {N})"));
                     break;
                 }
@@ -589,7 +605,7 @@ impl<const N: usize> ZEx<N> {
 const ZOPS: &[Op] = &[
     Op::PushBack, Op::PushFront, Op::TryPushBack, Op::TryPushFront, Op::PopBack, Op::PopFront, Op::Remove, Op::SwapRemoveBack, Op::SwapRemoveFront, Op::Swap, Op::TruncateBack,
     Op::TruncateFront, Op::Clear, Op::ExtendFromSlice, Op::Extend, Op::MakeContiguous, Op::Drain, Op::Iter, Op::Range, Op::IterMut, Op::RangeMut, Op::GetMut, Op::Index,
-    Op::NthBackMut, Op::ToVec, Op::CloneTo, Op::CloneFrom, Op::CmpBufs, Op::DebugFmt, Op::FromArray, Op::IntoIter, Op::DropBuf,
+    Op::NthBackMut, Op::ToVec, Op::CloneTo, Op::CloneFrom, Op::CmpBufs, Op::DebugFmt, Op::FromArray, Op::IntoIter, Op::DropBuf, Op::Fill,
 ];
 
 pub fn gen_zst(seed: u64, run: u64) -> Script {
